@@ -211,3 +211,190 @@ Print Assumptions C15_merge_identical_samples_invariant.
 Print Assumptions C15_signal_rescale_covariant_spec.
 Print Assumptions C15_profile_invariant.
 Print Assumptions C15_profile_invariant_argmin.
+
+(* ================= additions: constraint terms of merge / rescale, implementation-level corollaries (InvarianceMore*.v) ================= *)
+Require Import PV.RefineRates PV.RefineTermsFinal PV.RefineTermsTop PV.InvarianceMore PV.InvarianceMoreImpl PV.InvarianceMoreExamples
+               PV.InvarianceMoreSplit PV.InvarianceMoreSplitEx.
+
+(* 6'. Merge with ALL likelihood terms.  Two adjacent samples carrying the same modifiers (mod_sim: same name, type and data, except
+   that each sample lists its own MC-statistical uncertainties) are replaced by one sample sm with the summed yields, the same
+   modifiers, and staterror uncertainties that are the quadrature sums -- stated through the square, no square root:
+   u(sm)^2 = u(s1)^2 + u(s2)^2 in every bin for every staterror the samples carry.  Expected data equal, all terms (main Poisson terms,
+   staterror constraint terms with their widths, every other constraint term) the same multiset.  Samples with a histosys (variations
+   would have to be added as well) or a shapesys (a shapesys name belongs to ONE sample, wf_spec conjunct 6, so two samples never
+   carry the same shapesys) are outside the premise. *)
+Theorem C15_merge_samples_invariant : forall N, ring_theory (n0 N) (n1 N) (nadd N) (nmul N) (nsub N) (nopp N) eq ->
+  (forall a b : V N, ndiv N a b = nmul N a (ninv N b)) ->
+  forall ia im nc hc cb (sp : spec N) pre post c0 spre spost s1 s2 sm,
+  channels sp = pre ++ c0 :: post -> c_samples c0 = spre ++ s1 :: s2 :: spost -> NoDup (map c_name (channels sp)) ->
+  Forall2 (mod_sim N) (s_mods s1) (s_mods s2) -> Forall2 (mod_sim N) (s_mods s1) (s_mods sm) ->
+  s_data sm = vadd N (s_data s1) (s_data s2) -> length (s_data s1) = length (s_data s2) ->
+  (forall m, In m (s_mods s1) -> m_type m <> Histosys /\ m_type m <> Shapesys) ->
+  (forall n b, has_mod N s1 n Staterror = true -> b < length (s_data s1) ->
+     nmul N (stat_unc N sm n b) (stat_unc N sm n b) =
+     nadd N (nmul N (stat_unc N s1 n b) (stat_unc N s1 n b)) (nmul N (stat_unc N s2 n b) (stat_unc N s2 n b))) ->
+  (forall s, In s (c_samples c0) -> length (s_data s) = chan_nbins N c0) ->
+  forall theta obs aux,
+  let c0' := with_samples c0 (spre ++ sm :: spost) in
+  (forall b, ref_rate N ia im nc hc None cb sp theta c0' b = ref_rate N ia im nc hc None cb sp theta c0 b) /\
+  ref_expected N ia im nc hc None cb (with_channels sp (pre ++ c0' :: post)) theta = ref_expected N ia im nc hc None cb sp theta /\
+  Permutation (ref_terms N ia im nc hc None cb (with_channels sp (pre ++ c0' :: post)) theta obs aux) (ref_terms N ia im nc hc None cb sp theta obs aux).
+Proof. exact merge_samples_invariant_full. Qed.
+(* ... and the rewrite `merged` of theorem 6 (first sample's modifier list, summed yields) when the samples carry no staterror: all terms *)
+Theorem C15_merge_identical_samples_invariant_terms : forall N, ring_theory (n0 N) (n1 N) (nadd N) (nmul N) (nsub N) (nopp N) eq ->
+  (forall a b : V N, ndiv N a b = nmul N a (ninv N b)) ->
+  forall ia im nc hc cb (sp : spec N) pre post c0 spre spost s1 s2,
+  channels sp = pre ++ c0 :: post -> c_samples c0 = spre ++ s1 :: s2 :: spost -> NoDup (map c_name (channels sp)) ->
+  s_mods s2 = s_mods s1 -> length (s_data s1) = length (s_data s2) ->
+  (forall m, In m (s_mods s1) -> m_type m <> Histosys /\ m_type m <> Shapesys /\ m_type m <> Staterror) ->
+  (forall s, In s (c_samples c0) -> length (s_data s) = chan_nbins N c0) ->
+  forall theta obs aux,
+  let c0' := with_samples c0 (spre ++ merged N s1 s2 :: spost) in
+  Permutation (ref_terms N ia im nc hc None cb (with_channels sp (pre ++ c0' :: post)) theta obs aux) (ref_terms N ia im nc hc None cb sp theta obs aux).
+Proof. exact merge_identical_samples_invariant_terms. Qed.
+
+(* 7'. Signal rescaling with ALL terms: when the samples carrying the normfactor mu have no histosys, no staterror and no shapesys, the
+   constraint terms of the rescaled specification at the rescaled parameters are LITERALLY the same list, hence so is the whole term list. *)
+Theorem C15_signal_rescale_covariant_terms : forall N,
+  field_theory (n0 N) (n1 N) (nadd N) (nmul N) (nsub N) (nopp N) (ndiv N) (ninv N) eq ->
+  forall ia im nc hc cs cb (mu : string) (k : V N), k <> n0 N ->
+  forall (sp : spec N) (theta : string -> nat -> V N),
+  NoDup (map c_name (channels sp)) ->
+  (forall c s m, In c (channels sp) -> In s (c_samples c) -> In m (s_mods s) -> m_name m = mu -> m_type m = Normfactor) ->
+  (forall c s, In c (channels sp) -> In s (c_samples c) -> has_mod N s mu Normfactor = true -> NoDup (map mkey (s_mods s))) ->
+  (forall c s m, In c (channels sp) -> In s (c_samples c) -> has_mod N s mu Normfactor = true -> In m (s_mods s) ->
+     m_type m <> Histosys /\ m_type m <> Staterror /\ m_type m <> Shapesys) ->
+  forall obs aux,
+  ref_expected N ia im nc hc cs cb (rescale_signal N mu k sp) (rescale_theta N mu k theta) = ref_expected N ia im nc hc cs cb sp theta /\
+  ref_cterms N (rescale_signal N mu k sp) (rescale_theta N mu k theta) aux = ref_cterms N sp theta aux /\
+  ref_terms N ia im nc hc cs cb (rescale_signal N mu k sp) (rescale_theta N mu k theta) obs aux = ref_terms N ia im nc hc cs cb sp theta obs aux.
+Proof. exact signal_rescale_covariant_terms. Qed.
+
+(* Implementation level, through C01 (expected_refines_accepted_full) and C02 (logpdf_terms_refines).  Common shape: sp and the
+   rewritten sp' are both accepted by `build`, the JSON-schema shapes hold for both, the documented clip guard holds; the two runs are fed
+   parameters and data that agree BY NAME on the components the original specification reads (agree_on: every (parameter name,
+   component) in read_list sp; obs_agree: every bin of every channel of sp).  Then expected_actualdata is equal and the term lists
+   returned by logpdf_terms are the same multiset. *)
+Theorem C15_zero_sample_invariant_impl : forall N, ring_theory (n0 N) (n1 N) (nadd N) (nmul N) (nsub N) (nopp N) eq ->
+  (forall a b : V N, neqb N a b = true -> a = b) -> (forall a b : V N, ndiv N a b = nmul N a (ninv N b)) ->
+  forall ia im (st : settings N), clip_guard N st ->
+  forall (sp : spec N) pre post c0 s0 md md' pars pars',
+  let sp' := with_channels sp (pre ++ add_sample N s0 c0 :: post) in
+  channels sp = pre ++ c0 :: post -> s_mods s0 = [] -> length (s_data s0) = chan_nbins N c0 -> (forall b, nth b (s_data s0) (n0 N) = n0 N) ->
+  build N sp = Ok md -> build N sp' = Ok md' -> shape_ok N sp -> shape_ok N sp' ->
+  same_pars N sp md md' pars pars' ->
+  expected_actualdata N ia im sp' st md' pars' = expected_actualdata N ia im sp st md pars /\
+  forall data data' l l', list_shape_ok N sp -> list_shape_ok N sp' ->
+    logpdf_terms N ia im sp st md pars data = Ok l -> logpdf_terms N ia im sp' st md' pars' data' = Ok l' ->
+    same_data N sp sp' md md' data data' -> Permutation l' l.
+Proof. exact zero_sample_invariant_impl. Qed.
+Theorem C15_null_systematic_invariant_impl : forall N, ring_theory (n0 N) (n1 N) (nadd N) (nmul N) (nsub N) (nopp N) eq ->
+  (forall a b : V N, neqb N a b = true -> a = b) -> (forall a b : V N, ndiv N a b = nmul N a (ninv N b)) ->
+  forall ia im (st : settings N), clip_guard N st ->
+  forall (sp : spec N) pre post c0 spre spost s1 m0 md md' pars pars',
+  let sp' := with_channels sp (pre ++ with_samples c0 (spre ++ add_mod N m0 s1 :: spost) :: post) in
+  channels sp = pre ++ c0 :: post -> c_samples c0 = spre ++ s1 :: spost ->
+  null_mod N ia im (normsys_code N st) (histosys_code N st) s1 m0 ->
+  build N sp = Ok md -> build N sp' = Ok md' -> shape_ok N sp -> shape_ok N sp' ->
+  same_pars N sp md md' pars pars' ->
+  expected_actualdata N ia im sp' st md' pars' = expected_actualdata N ia im sp st md pars /\
+  forall data data' l l', list_shape_ok N sp -> list_shape_ok N sp' ->
+    logpdf_terms N ia im sp st md pars data = Ok l -> logpdf_terms N ia im sp' st md' pars' data' = Ok l' ->
+    same_data N sp sp' md md' data data' ->
+    (In (m_name m0) (alpha_names N sp) -> Permutation l' l) /\
+    (~ In (m_name m0) (alpha_names N sp) ->
+       Permutation l' (TNorm (aux_of_data N sp' md' data' (m_name m0) O) (theta N md' (parf N pars') (m_name m0) O) (n1 N) :: l)).
+Proof. exact null_systematic_invariant_impl. Qed.
+Theorem C15_merge_samples_invariant_impl : forall N, ring_theory (n0 N) (n1 N) (nadd N) (nmul N) (nsub N) (nopp N) eq ->
+  (forall a b : V N, neqb N a b = true -> a = b) -> (forall a b : V N, ndiv N a b = nmul N a (ninv N b)) ->
+  forall ia im (st : settings N), clip_guard N st ->
+  forall (sp : spec N) pre post c0 spre spost s1 s2 sm md md' pars pars',
+  let sp' := with_channels sp (pre ++ with_samples c0 (spre ++ sm :: spost) :: post) in
+  clip_sample N st = None ->
+  channels sp = pre ++ c0 :: post -> c_samples c0 = spre ++ s1 :: s2 :: spost ->
+  Forall2 (mod_sim N) (s_mods s1) (s_mods s2) -> Forall2 (mod_sim N) (s_mods s1) (s_mods sm) ->
+  s_data sm = vadd N (s_data s1) (s_data s2) ->
+  (forall m, In m (s_mods s1) -> m_type m <> Histosys /\ m_type m <> Shapesys) ->
+  (forall n b, has_mod N s1 n Staterror = true -> b < length (s_data s1) ->
+     nmul N (stat_unc N sm n b) (stat_unc N sm n b) =
+     nadd N (nmul N (stat_unc N s1 n b) (stat_unc N s1 n b)) (nmul N (stat_unc N s2 n b) (stat_unc N s2 n b))) ->
+  build N sp = Ok md -> build N sp' = Ok md' -> shape_ok N sp -> shape_ok N sp' ->
+  same_pars N sp md md' pars pars' ->
+  expected_actualdata N ia im sp' st md' pars' = expected_actualdata N ia im sp st md pars /\
+  forall data data' l l', list_shape_ok N sp -> list_shape_ok N sp' ->
+    logpdf_terms N ia im sp st md pars data = Ok l -> logpdf_terms N ia im sp' st md' pars' data' = Ok l' ->
+    same_data N sp sp' md md' data data' -> Permutation l' l.
+Proof. exact merge_samples_invariant_impl. Qed.
+(* the rescaled model is fed theta mu / k (component 0 of mu; all other read components unchanged) *)
+Theorem C15_signal_rescale_covariant_impl : forall N,
+  field_theory (n0 N) (n1 N) (nadd N) (nmul N) (nsub N) (nopp N) (ndiv N) (ninv N) eq ->
+  (forall a b : V N, neqb N a b = true -> a = b) ->
+  forall ia im (st : settings N), clip_guard N st ->
+  forall (mu : string) (k : V N), k <> n0 N ->
+  forall (sp : spec N) md md' pars pars',
+  let sp' := rescale_signal N mu k sp in
+  (forall c s m, In c (channels sp) -> In s (c_samples c) -> In m (s_mods s) -> m_name m = mu -> m_type m = Normfactor) ->
+  (forall c s m, In c (channels sp) -> In s (c_samples c) -> has_mod N s mu Normfactor = true -> In m (s_mods s) ->
+     m_type m <> Histosys /\ m_type m <> Staterror /\ m_type m <> Shapesys) ->
+  build N sp = Ok md -> build N sp' = Ok md' -> shape_ok N sp -> shape_ok N sp' ->
+  agree_on N sp (theta N md' (parf N pars')) (rescale_theta N mu k (theta N md (parf N pars))) ->
+  expected_actualdata N ia im sp' st md' pars' = expected_actualdata N ia im sp st md pars /\
+  forall data data' l l', list_shape_ok N sp -> list_shape_ok N sp' ->
+    logpdf_terms N ia im sp st md pars data = Ok l -> logpdf_terms N ia im sp' st md' pars' data' = Ok l' ->
+    obs_agree N sp (obs_by_name N sp' data') (obs_by_name N sp data) ->
+    agree_on N sp (aux_of_data N sp' md' data') (aux_of_data N sp md data) ->
+    Permutation l' l.
+Proof. exact signal_rescale_covariant_impl. Qed.
+(* the renamed model is fed, under the name f n, what the original is fed under n *)
+Theorem C15_rename_parameters_invariant_impl : forall N, ring_theory (n0 N) (n1 N) (nadd N) (nmul N) (nsub N) (nopp N) eq ->
+  (forall a b : V N, neqb N a b = true -> a = b) -> (forall a b : V N, ndiv N a b = nmul N a (ninv N b)) ->
+  forall ia im (st : settings N), clip_guard N st ->
+  forall (f : string -> string) (sp : spec N) md md' pars pars',
+  let sp' := rename_parameters N f sp in
+  (forall a b, f a = f b -> a = b) ->
+  build N sp = Ok md -> build N sp' = Ok md' -> shape_ok N sp -> shape_ok N sp' ->
+  (forall n k, In (n, k) (read_list N sp) -> theta N md' (parf N pars') (f n) k = theta N md (parf N pars) n k) ->
+  expected_actualdata N ia im sp' st md' pars' = expected_actualdata N ia im sp st md pars /\
+  forall data data' l l', list_shape_ok N sp -> list_shape_ok N sp' ->
+    logpdf_terms N ia im sp st md pars data = Ok l -> logpdf_terms N ia im sp' st md' pars' data' = Ok l' ->
+    obs_agree N sp (obs_by_name N sp' data') (obs_by_name N sp data) ->
+    (forall n k, In (n, k) (read_list N sp) -> aux_of_data N sp' md' data' (f n) k = aux_of_data N sp md data n k) ->
+    Permutation l' l.
+Proof. exact rename_parameters_invariant_impl. Qed.
+
+(* 5'. Split of a channel, full form (replaces the restriction of C15_split_channel_invariant_partial above: channels WITH staterror /
+   shapesys / shapefactor, main AND constraint terms).  c0 is cut after its first k bins into c1 = cutren_channel (firstn k) r1 n1' c0 and
+   c2 = cutren_channel (skipn k) r2 n2' c0: samples, bin-wise data and histosys variations cut along, every bin-wise modifier renamed by
+   r1 in c1 and by r2 in c2 (the parameter becomes two parameters carrying the two halves).  split_corr theta' theta states the
+   correspondence on the components the template reads (comp: shapefactor/shapesys = local bin; staterror = stat_offset + local bin,
+   each computed in its own specification, so staterrors shared with other channels are covered): scalar parameters unchanged at
+   component 0; bin-wise parameters of the other channels unchanged at the component read for each bin; for a bin-wise parameter n of c0
+   the component read by c1 for bin b < k under the name r1 n, and by c2 for bin b under the name r2 n, is the component c0 reads for
+   bin b, resp. k + b.  Same correspondence for the auxiliary data; observations renamed along.  Further premises: r1, r2 injective;
+   the measurement does not override widths/factors of the bin-wise parameters (nor of the new names).  Then ALL likelihood terms
+   (Poisson terms, staterror and shapesys constraint terms of both parts, all other constraint terms) are the same multiset.
+   For a channel without bin-wise modifiers cutren_channel renames nothing and split_corr reduces to equality at component 0. *)
+Theorem C15_split_channel_invariant : forall N ia im nc hc cs cb k (r1 r2 : string -> string) (sp : spec N) pre post c0 n1' n2',
+  channels sp = pre ++ c0 :: post -> k <= chan_nbins N c0 ->
+  forall theta theta' : string -> nat -> V N, split_corr N k r1 r2 sp pre post c0 n1' n2' theta' theta ->
+  forall obs obs' : string -> nat -> V N,
+  (forall b, obs' n1' b = obs (c_name c0) b) -> (forall b, obs' n2' b = obs (c_name c0) (k + b)) ->
+  (forall c b, In c (pre ++ post) -> obs' (c_name c) b = obs (c_name c) b) ->
+  forall aux aux' : string -> nat -> V N, split_corr N k r1 r2 sp pre post c0 n1' n2' aux' aux ->
+  (forall a b, r1 a = r1 b -> a = b) -> (forall a b, r2 a = r2 b -> a = b) ->
+  (forall c s m, In c (channels sp) -> In s (c_samples c) -> In m (s_mods s) -> binwise N m = true ->
+     user_cfg N sp (m_name m) = None /\ user_cfg N sp (r1 (m_name m)) = None /\ user_cfg N sp (r2 (m_name m)) = None) ->
+  Permutation (ref_terms N ia im nc hc cs cb
+                 (with_channels sp (pre ++ cutren_channel N (firstn k) r1 n1' c0 :: cutren_channel N (skipn k) r2 n2' c0 :: post)) theta' obs' aux')
+              (ref_terms N ia im nc hc cs cb sp theta obs aux).
+Proof. exact split_binwise_terms. Qed.
+
+Print Assumptions C15_merge_samples_invariant.
+Print Assumptions C15_merge_identical_samples_invariant_terms.
+Print Assumptions C15_signal_rescale_covariant_terms.
+Print Assumptions C15_zero_sample_invariant_impl.
+Print Assumptions C15_null_systematic_invariant_impl.
+Print Assumptions C15_merge_samples_invariant_impl.
+Print Assumptions C15_signal_rescale_covariant_impl.
+Print Assumptions C15_rename_parameters_invariant_impl.
+Print Assumptions C15_split_channel_invariant.
